@@ -4,6 +4,7 @@ import (
 	"encoding/binary"
 	"io"
 	"strconv"
+	"strings"
 
 	structform "github.com/elastic/go-structform"
 	"github.com/elastic/go-structform/ubjson"
@@ -77,8 +78,12 @@ func (r *rng) ubPayload(m byte, depth int) []byte {
 		return b
 	case 'H':
 		s := strconv.FormatUint(uintPool[r.n(len(uintPool))], 10)
-		if r.chance(1, 4) {
-			s = "-12345678901234567890.5e10"
+		if r.chance(1, 3) {
+			// what high-precision numbers exist for: more digits and larger exponents than any
+			// binary type holds, in every spelling of the JSON number grammar
+			s = []string{"-12345678901234567890.5e10", "1e309", "-2.5e+1000", "1E-400", "6.02214076E+23", "1e+10", "-0", "0.0",
+				"3.14159265358979323846264338327950288419716939937510582097494459230781640628620899862803482534211706798",
+				strings.Repeat("9", 310), "-" + strings.Repeat("1", 400) + ".5", "0e0", "18446744073709551616", "-9223372036854775809"}[r.n(14)]
 		}
 		return append(ubLen(len(s), r), s...)
 	case 'S':
